@@ -537,8 +537,14 @@ def rule_c18(an, res):
                     if msg not in res.assumptions:
                         res.assumptions.append(msg)
                     continue
-                from rules_pos import carried_destination
+                from rules_pos import carried_destination, carried_head_invariant
                 cd = [b for b in bodies if carried_destination(b, b.seg.effs('MOVE'))]
+                proven = {}
+                for b in list(cd):
+                    terms = carried_head_invariant(b, roles)
+                    if terms:
+                        proven[id(b)] = terms        # the variable is l.begin() whenever an iteration starts: read it as that
+                        cd.remove(b)
                 if cd:
                     msg = ('G-UNKNOWN splice destination held in an iterator variable that is carried from one range element to the next '
                            '(a loop invariant about that variable would be needed) in %s reached from %s::%s'
@@ -548,7 +554,17 @@ def rule_c18(an, res):
                     continue
                 rsum = set()
                 for b in bodies:
-                    rsum.add(body_summary(b, roles, subject_subst(b, m)))
+                    swapped = []
+                    if id(b) in proven:
+                        for mv in b.seg.effs('MOVE'):
+                            if mv.dest in proven[id(b)] and mv is b.seg.effs('MOVE')[0]:
+                                swapped.append((mv, mv.dest))
+                                mv.dest = ('q', 'begin', ('fld', ('this',), roles.order), (), 0)
+                    try:
+                        rsum.add(body_summary(b, roles, subject_subst(b, m)))
+                    finally:
+                        for mv, old_dest in swapped:
+                            mv.dest = old_dest
                     check_plumbing(res, prop, cm, roles, m, top, b)
                 # a decision about the call's own parameters taken once before the loop (const auto mode = peek ? ... : ...) splits the range
                 # method into top-level paths; each is compared with the single form's paths that agree with that decision
@@ -865,7 +881,7 @@ def rule_c01(an, res):
                         continue
                     check_entities(res, prop, cm, roles, m, seg)
                     from rules_pos import check_fifo_unbind
-                    check_fifo_unbind(res, prop, cm, roles, m, seg)
+                    check_fifo_unbind(res, prop, cm, roles, m, seg, an)
                     from rules_seq import check_bind_dominated
                     check_bind_dominated(res, prop, cm, roles, m, seg)
                     if roles.name == 'rr_cache' and seg.effs('PERM_WR'):
@@ -1437,7 +1453,7 @@ def rule_c08(an, res):
                         continue
                     check_iter_typestate(res, prop, cm, roles, m, seg)
                     from rules_pos import check_fifo_unbind
-                    check_fifo_unbind(res, prop, cm, roles, m, seg)
+                    check_fifo_unbind(res, prop, cm, roles, m, seg, an)
                     check_free_slot(res, prop, cm, roles, m, seg)
                     check_entities(res, prop, cm, roles, m, seg)
                     if roles.name == 'rr_cache' and seg.effs('PERM_WR'):
